@@ -21,6 +21,11 @@ const PackageFileName = "_package.yml"
 const MaxImportRecursionDepth = 10
 
 var namespaceNameRegex = regexp.MustCompile(`^[A-Z][a-zA-Z0-9]*$`)
+
+// The name that generated code gives to the version of the model itself,
+// next to the labels of its previous versions.
+const CurrentVersionLabel = "Current"
+
 var versionLabelRegex = regexp.MustCompile(`^[a-zA-Z][a-zA-Z0-9]*(_[a-zA-Z0-9]+)*$`)
 
 type PackageInfo struct {
@@ -83,6 +88,8 @@ func (p *PackageInfo) validate() error {
 			errorSink.Add(validation.NewValidationError(errors.New("the version label is missing"), p.FilePath))
 		} else if !versionLabelRegex.MatchString(ver.Label) {
 			errorSink.Add(validation.NewValidationError(fmt.Errorf("the version label '%s' must match the format %s", ver.Label, versionLabelRegex.String()), p.FilePath))
+		} else if ver.Label == CurrentVersionLabel {
+			errorSink.Add(validation.NewValidationError(fmt.Errorf("the version label '%s' is reserved for the current version of the model", ver.Label), p.FilePath))
 		}
 	}
 
